@@ -44,6 +44,7 @@ JudgeRename(e, ts, m, predicted) ==
     IF ~e.ok THEN V("property", "C13_OnlyWholeNames")           \* no expression came back
     ELSE IF ~OnlyWholeNames(ts, m, e.toks) THEN V("property", "C13_OnlyWholeNames")
     ELSE IF ~Simultaneous(ts, m, e.toks) THEN V("property", "C13_Simultaneous")
+    ELSE IF AllIdentity(m) /\ e.toks # ts THEN V("property", "C13_Simultaneous")
     ELSE IF MustPreserve(ts, m) /\ (~e.vok \/ e.vals # << Expected(ts, 1), Expected(ts, 2) >>)
          THEN V("property", "C13_ValuePreserved")
     ELSE IF e.toks # predicted THEN V("drift", "subst_op")
